@@ -34,7 +34,7 @@ and is the current one; every query goes to the current object and to fresh obje
   Z a b    std::swap(*slot a, *slot b)
   X k      the object in slot k is destroyed
 A call that ends the process makes the whole line EXIT.
-The model prints `_` only for the 2-D Global_* values; `_` is not compared.
+Every token is predicted by the model (the 2-D Global_* values by glob2 of C09_Model.v).
 Generator classes: plain tables (integer / logarithmic / random increments, 3..2000 points) with histories of far jumps, short correlated steps
 both ways, knots, the ladder of distances beside knots (1..1000 representable steps, 1e-16..1e-6 relative), domain ends and margins,
 verbatim repetitions of earlier arguments, copies; sessions in which a copy's source (or the copy) is afterwards queried elsewhere,
@@ -43,7 +43,10 @@ the other one is asked again, with arguments aimed at the segments that the cach
 tables (where a look-up that consults state or storage of another object goes wrong); every constructor overload with unit arguments; tables on EXTREME scales (abscissae
 scaled by 1e-322..1e295 through the raw table or the unit argument, neighbouring doubles at a large offset, subnormal abscissae): there
 1-D histories use every kind of query when the spline coefficients are numbers and the index / prefactor / copy / Global_* calls otherwise
-(`index-only`), 2-D histories evaluate the bilinear value throughout."""
+(`index-only`), 2-D histories evaluate the bilinear value throughout; `unit-collapse`: raw tables with neighbouring doubles and a unit
+argument x_dim whose rounding multiplication maps them to ONE double: the 1-D constructor (since the repair F45 of the former finding
+K-C09-2) and the 2-D constructor convert the units first and test the order on the converted abscissae, so both must end the process;
+an object that comes back from such a call, and any history dependence on it, is a violation."""
 import bisect, math, struct
 from vcheck import Case, hx, flist, tokf
 
@@ -65,8 +68,29 @@ LEVEL_TEXT = ("Theorems (Coq, unbounded, on an abstract number type with only th
               "alone assigns to that slot — what happens to the source of a copy after the copy was taken, or to the copy, is invisible on the other (1-D and 2-D). Constructors (every overload: vectors / rows, grid / data table, with the unit arguments x_dim, y_dim, "
               "f_dim): a unit argument > 0 multiplies its table and nothing else, any other value (the default -1 included) leaves it alone, and the object starts "
               "with prefactor 1, jLast 0, correlated_calls false whatever the unit arguments are, so that on an object built with units the prefactor after a "
-              "history is still the one of the Set_Prefactor / Multiply calls alone and every query answers as on a fresh object of the scaled table. Not theorems: that the C++ code is the model (differential correspondence on every run: "
-              "every Locate index on used and fresh objects, prefactors, exits, all 2-D values) and the bit-identity of the C++ values themselves "
+              "history is still the one of the Set_Prefactor / Multiply calls alone and every query answers as on a fresh object of the scaled table. "
+              "From the constructor's checks to the premise `strictly increasing table` (C09_constructor_*): the 1-D constructor converts the units first and runs its strict-increase "
+              "test on the converted abscissae, the table the searches run on (repair F45 of the former finding K-C09-2: before it the test ran on the abscissae as given and a rounding "
+              "multiplication by x_dim could afterwards produce a repeated abscissa and a history-dependent Locate). C09_constructor_table_increasing (and _rows_ / _default_ for the other "
+              "overloads): EVERY object a 1-D constructor call returns holds a strictly increasing table of at least two points, from the order laws alone, whatever the unit arguments are "
+              "and whatever the multiplication does (valid for doubles, rounding included; a collapsing unit argument ends the process in the constructor); "
+              "C09_constructed_history_free: hence for every constructed object (at most 2^30 points), with no premise on the table, after any history every operation answers as on a fresh "
+              "object with the prefactor of the history, and no out-of-bounds read or exhausted loop occurs. These replace the former _partial / _real theorems at full strength. "
+              "The former C09_constructed_history_free_refuted is false of the repaired model and is no property theorem any more; its abstract witness is kept in coq/C09_Proofs_Table.v as the "
+              "lemma old_order_history_dependent about construct1_old_order (the constructor with the OLD order, explicitly not the model of the code), together with cx_exits: the repaired "
+              "constructor exits on that input. Interpolation_2D scales its abscissae first and builds its helper objects from the scaled lists with the default unit arguments, so every object "
+              "a 2-D constructor call returns (both overloads, any unit arguments) has strictly increasing axes (C09_constructor_2d_tables_increasing, _rows_) and "
+              "C09_constructed_2d_history_free states the 2-D history theorem for constructed objects with no premise on the tables; since the helper constructors now pass through the unit "
+              "conversion before their test, these three carry the premise that the default unit argument -1.0 is not > 0.0 (a fact of the literal, true for doubles, reals and integers: "
+              "dflt_inactive_examples; the arithmetic of the abstract number type is uninterpreted). The reproducing case of the repaired finding is a regression case "
+              "(corpus/C09/regressions.case: the constructor exits, model and implementation agree); the generator class unit-collapse keeps aiming at this region for 1-D and 2-D objects. "
+              "Continuations (C09_continuation_history_free, _2d): not only one further query but every sequence of further calls is answered call by call as on a fresh object; "
+              "C09_save_function_history_free is the instance for the Interpolate calls Save_Function makes, for every list of arguments. "
+              "Interpolation_2D::Global_Minimum / Global_Maximum are operations of the 2-D model now (covered by the 2-D history, bounds and session theorems): C09_global_extrema_2d_spec "
+              "proves that the row-wise min_element / max_element scans end on the least / greatest entry of the whole Nx x Ny table (induction over rows), C09_global_extrema_2d_scaled that, "
+              "when the multiplication by the prefactor is monotone or antitone (IEEE and real multiplication are), the result is the least / greatest of the products prefactor * f[i][j] "
+              "and one of them, for negative prefactors too. Not theorems: that the C++ code is the model (differential correspondence on every run: "
+              "every Locate index on used and fresh objects, prefactors, exits, all 2-D values, the 2-D global extrema included) and the bit-identity of the C++ values themselves "
               "(S4: every value of a used object is compared bit for bit with a fresh object's — built by the same constructor overload with the same unit arguments — "
               "and with the prefactor of the history times the value of a new object: exactly for Interpolate / operator() / Derivative / Local_* / Global_* and "
               "the 2-D value, within the a-priori summation error for Integrate; a new object is anchored to the unit-scaled table at tabulated abscissae, by its "
@@ -75,7 +99,9 @@ LEVEL_TEXT = ("Theorems (Coq, unbounded, on an abstract number type with only th
               "NaN arguments: Locate tests std::isnan first and exits; C09_nan_argument_exits proves Exit in every state, and the history theorems "
               "hold for NaN arguments as well (both objects exit).")
 LEVEL_NOTE = ("Coq 8.16.1 kernel; all C09 theorems are axiom-free (closed under the global context); premises carried by the theorems: OrdLaws (strict total "
-              "order on non-NaN values; nisnan models std::isnan), table strictly increasing (checked by the constructor), 2 <= N <= 2^30 (no int overflow in the index arithmetic); C++ int/unsigned "
+              "order on non-NaN values; nisnan models std::isnan), table strictly increasing (checked by the constructor on the unit-converted abscissae; discharged for constructed objects by "
+              "C09_constructor_table_increasing / C09_constructed_history_free since the repair F45 of K-C09-2), for the constructed 2-D objects the default unit argument -1.0 is not > 0.0, "
+              "2 <= N <= 2^30 (no int overflow in the index arithmetic); C++ int/unsigned "
               "conversions are modelled as reduction mod 2^32; default copy constructor / assignment are modelled as duplication of (jLast, correlated_calls, prefactor) "
               "and, in sessions, of the table the object holds (no storage is shared between objects in the model; that the C++ objects share none is checked by the "
               "session cases of the correspondence and S4 stages, in the thorough tier also under AddressSanitizer)")
@@ -244,13 +270,28 @@ class Machine:
         return True
 
 
-def simulate(P):
-    """returns (kinds, exits): the search kind of every Locate call of the history, and whether some call exits"""
+def ctor_exits(P, t):
+    """the constructor of table t ends the process: 1-D and 2-D constructors (the latter through the helper objects x_int / y_int) test
+    the order of the abscissae AFTER the unit conversion and reject a repeated abscissa"""
+    xs, ys, tab = P.tables[t]
+    return collapsed(xs) or (P.two and collapsed(ys))
+
+
+def simulate(P, ctor=True):
+    """returns (kinds, exits): the search kind of every Locate call of the history, and whether some call exits;
+    ctor=False: as if the constructors accepted every table (used to examine an object that should not exist)"""
     kinds = []; m = Machine(P.two, P.tables)
+    if ctor and ctor_exits(P, 0): return kinds, True
     for o, a in P.ops:
+        if ctor and o in ("N", "V", "W") and ctor_exits(P, a[1]): return kinds, True
         if m.life(o, a): continue
         if not m.query(o, a, kinds): return kinds, True
     return kinds, False
+
+
+def collapsed(xs):
+    """a (unit-scaled) list of abscissae that is not strictly increasing any more"""
+    return any(b <= a for a, b in zip(xs, xs[1:]))
 
 
 def same_bits(a, b):
@@ -560,6 +601,64 @@ def case_2d_ext(rng, nx, ny, nops, with_exit=False):
     return Case(line, ("2d", "extreme-scale", "x:" + sx, "y:" + sy) + (("exit-last",) if with_exit else ()))
 
 
+# ---- unit arguments that collapse neighbouring abscissae (the region of the repaired finding K-C09-2 / F45)
+def collapse_table(rng, n):
+    """(raw abscissae, x_dim, k): the raw list is strictly increasing and holds xs[k] and its next one or two doubles; the rounding
+    multiplication by x_dim > 0 maps at least two of them to the same double (and collapses nothing else); None if no such pair is found"""
+    for _ in range(300):
+        xs0, _ys = make_table(rng, n)
+        if len(xs0) < 4: continue
+        k = rng.randrange(1, len(xs0) - 2)
+        a = xs0[k]
+        if a == 0.0: continue
+        m = rng.choice([1, 1, 2])
+        cl = [a]
+        for _i in range(m): cl.append(math.nextafter(cl[-1], math.inf))
+        if cl[-1] >= xs0[k + 1]: continue
+        raw = xs0[:k] + cl + xs0[k + 1:]
+        d = rng.choice([0.6, 0.3, 0.7, 1.0 / 3.0, 0.1, 10 ** rng.uniform(-3, 3), 10 ** rng.uniform(-3, 3), rng.choice(UNITS_PHYS)])
+        sc = scaled(d, raw)
+        if not all(math.isfinite(v) for v in sc) or max(abs(v) for v in sc) > 1e200 or min(abs(v) for v in sc if v != 0.0) < 1e-200: continue
+        bad = [i for i, (u, v) in enumerate(zip(sc, sc[1:])) if v <= u]
+        if not bad or any(i < k or i >= k + m for i in bad): continue
+        return raw, d, k
+    return None
+
+
+def case_1d_collapse(rng, n, nops):
+    """the 1-D constructor must end the process: the unit argument collapses neighbouring abscissae.  The index-only history behind it
+    (it ends with two calls in the segment left of the repeated abscissa — the second one makes the look-up hunt — and a call AT the
+    repeated abscissa) is what exposes the history dependence of an object that comes back all the same"""
+    t = collapse_table(rng, n)
+    if t is None: return None
+    raw, d, k = t
+    sc = scaled(d, raw)
+    ys = rand_values(rng, len(raw))
+    ops = [(o, a) for o, a in gen_history(rng, sc, nops, False, extra_pu=0.05, index_only=True)]
+    i = next(i for i, (u, v) in enumerate(zip(sc, sc[1:])) if v <= u)       # sc[i] == sc[i+1]
+    x1 = sc[i - 1] + (sc[i] - sc[i - 1]) * rng.choice([0.0, 0.5, rng.random()])
+    ops += [("L", [x1]), ("L", [x1]), ("L", [sc[i]])]
+    kind = rng.choice(["v", "v", "r"])
+    line = f"h1 {kind}1 {hx(d)} {flist(raw)} {flist(ys)} {len(ops)} " + " ".join(op_text(o, a) for o, a in ops)
+    return Case(line, ("1d", "unit-collapse", "exit-in-constructor", "index-only"))
+
+
+def case_2d_collapse(rng, n, ny):
+    """the same raw abscissae and unit argument on an axis of Interpolation_2D: its constructor scales first and must end the process"""
+    t = collapse_table(rng, n)
+    if t is None: return None
+    raw, d, k = t
+    other, _ = make_table(rng, ny)
+    on_x = rng.random() < 0.5
+    xs0, ys0 = (raw, other) if on_x else (other, raw)
+    tab = [math.sin(0.3 * i) * math.cos(0.2 * j) + 0.01 * i * j for i in range(len(xs0)) for j in range(len(ys0))]
+    kind = rng.choice(["g", "g", "t"])
+    ctor = f"{kind}1 {hx(d)}" if on_x else f"{kind}2 {hx(-1.0)} {hx(d)}"
+    ops = [("I", [scaled(d, xs0)[0] if on_x else xs0[0], ys0[0] if on_x else scaled(d, ys0)[0]])]
+    line = f"h2 {ctor} {flist(xs0)} {flist(ys0)} " + " ".join(hx(v) for v in tab) + f" {len(ops)} " + " ".join(op_text(o, a) for o, a in ops)
+    return Case(line, ("2d", "unit-collapse", "exit-in-constructor"))
+
+
 def pick_ctor(rng, kinds, ndims, ok, units=None):
     """returns (ctor text, dims): overload from `kinds`, argc explicit unit arguments; ok(dims) validates the scaled tables.
     units: None = mostly the plain call; 'all' = every unit argument given"""
@@ -824,6 +923,13 @@ def generate(rng, tier):
         hy_ = [a[0] for o, a in gen_history(rng, ys2, 40, False, index_only=True) if o == "L"]
         ops = [("I", [a, b]) for a, b in zip(hx_, hy_)]
         cs.append(Case(f"h2 g0 {flist(xs)} {flist(ys2)} " + " ".join(hx(v) for v in tab) + f" {len(ops)} " + " ".join(op_text(o, a) for o, a in ops), ("2d", "extreme-scale", "scale-ladder")))
+    # unit arguments that collapse neighbouring abscissae: the 1-D and the 2-D constructors must exit
+    for _ in range(60 if big else 8):
+        c = case_1d_collapse(rng, rng.choice([4, 5, 8, 12, 23, 64]), rng.choice([5, 15, 40]))
+        if c is not None: cs.append(c)
+    for _ in range(40 if big else 6):
+        c = case_2d_collapse(rng, rng.choice([4, 5, 8, 12]), rng.choice([3, 5, 9]))
+        if c is not None: cs.append(c)
     # sessions: several objects holding several tables; copies whose source (or which themselves) change afterwards
     for _ in range(600 if big else 70):
         cs.append(case_session_1d(rng, rng.choice(sizes_small + [5, 8, 100]), rng.choice([4, 8, 12, 20])))
@@ -921,7 +1027,11 @@ def predicates(c, io):
         if not exits: out.append((f"{kind}:exit", "the history ends the process although every argument lies in the domain or its tolerated margin and every range is ordered"))
         return out
     if exits:
-        return [(f"{kind}:no-exit", "a call with an argument outside the tolerated margin (or a reversed range) returned instead of ending the process")]
+        bad_ctor = [i for i in range(len(P.tables)) if ctor_exits(P, i)]
+        if not bad_ctor or simulate(P, ctor=False)[1]:
+            return [(f"{kind}:no-exit", "a call with an argument outside the tolerated margin (or a reversed range), or a constructor call with abscissae that are not strictly increasing after the unit conversion, returned instead of ending the process")]
+        # an object that should not exist: report it, then examine its answers like any other object's
+        out.append((f"{kind}:constructor-accepts-repeated-abscissa", f"the constructor returned an object for table {bad_ctor[0]} although its abscissae are not strictly increasing after the unit conversion (the unit argument maps neighbouring abscissae to one double): " + " ".join(hx(v) for v in P.tables[bad_ctor[0]][0][:12])))
     t = io.split(); two = P.two; nout = NOUT2 if two else NOUT
     need = sum(nout[o] for o, a in ops)
     if len(t) != need: return [(f"{kind}:shape", f"{len(t)} output tokens, expected {need}")]
@@ -947,6 +1057,8 @@ def _check_call(out, kind, two, sfx, o, a, v, where, xs, ys, tab, pf, stat):
     (after this call), stat = (minimum, maximum, largest magnitude) of the function values of that table"""
     fmin, fmax, ymax = stat
     ny = len(ys)
+    n_before = len(out)
+    region = collapsed(xs) or (two and collapsed(ys))     # the object holds a repeated abscissa: it should not exist (note in the message)
     # |antiderivative value on a segment| <= ymax * (|x| + 5.5 * 2 * h) (Steffen: |a h^3| <= 6|dy|, |b h^2| <= 9|dy|, |c h| <= 2|dy|), 1 % beyond the ends included
     stem = 0.0 if two else ymax * (max(abs(xs[0]), abs(xs[-1])) + 13.0 * (xs[-1] - xs[0]))
     for _once in (0,):
@@ -1001,6 +1113,7 @@ def _check_call(out, kind, two, sfx, o, a, v, where, xs, ys, tab, pf, stat):
                         out.append((f"{o}{sfx}:prefactor", f"{where}: {x!r} is not the extremum {exp!r} of prefactor {pf!r} times the values of a new object (minimum {bmin!r}, maximum {bmax!r})"))
                     if o in ("gm", "gM") and (bmin != fmin or bmax != fmax):
                         out.append((f"{o}{sfx}:table", f"{where}: a new object has global extrema {bmin!r}, {bmax!r}; the (unit-scaled) table has {fmin!r}, {fmax!r}"))
+    if region: out[n_before:] = [(sg, msg + " [the unit argument collapsed neighbouring abscissae: the table holds a repeated abscissa]") for sg, msg in out[n_before:]]
 
 
 # ---------------------------------------------------------------- extra stage: the model's own trace of search kinds
